@@ -225,7 +225,8 @@ class C08(Check):
                     sub = draw(st.lists(st.sampled_from(avail), min_size=k, max_size=k, unique=True))
                 conds = conds_over(sub, draw(st.integers(0, 1)))
                 args = sorted(i for (_, i) in sub)
-                has_concl = True if kind != "base" else draw(st.sampled_from([True, True, True, False]))
+                # a refinement without a conclusion is a stopping rule: where it holds, nothing is concluded
+                has_concl = draw(st.sampled_from([True, True, True, False])) if kind in ("base", "refinement") else True
                 children = []
                 if depth < 3:
                     n_children = draw(st.sampled_from([0, 0, 1, 1, 2, 3] if depth == 0 else [0, 0, 0, 1, 2]))
